@@ -4,6 +4,7 @@ import json, os, re
 ROOT = '/verif/seeded'
 res = json.load(open(os.path.join(ROOT, 'RESULTS.json')))
 rows = []
+NOTES = json.load(open(os.path.join(ROOT, 'NOTES.json'))) if os.path.exists(os.path.join(ROOT, 'NOTES.json')) else {}
 for d in sorted(os.listdir(ROOT)):
   p = os.path.join(ROOT, d)
   if not os.path.exists(os.path.join(p, 'patch.diff')): continue
@@ -20,6 +21,7 @@ for d in sorted(os.listdir(ROOT)):
   if own in caught: c = own + (' (+ ' + ', '.join(other) + ')' if other else '')
   elif other: c = '**not by ' + own + '**; by ' + ', '.join(other)
   else: c = '**missed**'
+  if d in NOTES: c += ' — ' + NOTES[d].split(':')[0]
   odd = {k: v for k, v in r.items() if v not in (0, 1)}
   if odd: c += f" [exit {odd}]"
   rows.append(f"| {d} | {first[:110]} | {c} |")
